@@ -73,9 +73,17 @@ def run(rep, tier):
         rep.ob("R10.3", "key-insert-rechecked|%s" % name, ok, "btree.insert(key) must lie on the true edge of postings.contains_key evaluated after btree.write()", (ins[0].where() if ins else f.file))
     for name in ("remove", "remove_array"):
         f = prog.fn(BI + "::" + name)
+        # round 0 accepted `remove_if(.., is_empty)` after the posting guard was released; the C10 audit showed the gap in between hands
+        # readers a key with an empty id set.  The emptied posting has to go while the entry lock that emptied it is still held.
         rm = [e for e in f.calls_named(r"dashmap::DashMap::<K, V, S>::(remove|remove_if)$") if "postings" in ix.recv_fields(f, e)]
-        rep.ob("R10.3", "atomic-empty-removal|%s" % name, bool(rm) and all(e.callee.endswith("::remove_if") for e in rm),
-               "an emptied posting is removed with remove_if (re-checking emptiness under the shard lock), never with an unconditional remove", (rm[0].where() if rm else f.file))
+        ent = [e for e in f.calls_named(r"dashmap::DashMap::<K, V, S>::entry$") if "postings" in ix.recv_fields(f, e)]
+        orm = [e for e in f.calls_named(r"dashmap::mapref::entry::OccupiedEntry::<'a, K, V>::remove$|OccupiedEntry::<.*>::remove(_entry)?$")
+               if any(f.dominates(x.block, e.block) for x in ent)]
+        emp = [e for e in f.calls_named(r"::is_empty$") if any(f.dominates(e.block, o_.block) for o_ in orm) and any(f.dominates(x.block, e.block) for x in ent)]
+        rep.ob("R10.3", "emptied-posting-deleted-under-entry-lock|%s" % name, bool(ent) and bool(orm) and bool(emp) and not rm,
+               "%s empties a posting through a guard it then releases and deletes the entry afterwards (remove_if): in between a reader is handed the key with an "
+               "empty id set (query_with returns Some(0), scans receive []) - the entry must be removed through the OccupiedEntry that emptied it" % name,
+               (rm[0].where() if rm else f.file + ":%d" % f.line))
     h = prog.fn(BI + "::remove_btree_key_if_posting_absent")
     bw = [e for e in h.calls_named(r"lock_api::rwlock::RwLock::<R, T>::write$") if "btree" in ix.recv_fields(h, e)]
     ck = [e for e in h.calls_named(r"dashmap::DashMap::<K, V, S>::contains_key$")]
@@ -149,4 +157,22 @@ def run(rep, tier):
             for e in f.calls_named(r"RangeQuery::<FV>::try_convert_from_inner$"):
                 callers.add(prog.outer_fn(f).path.rsplit("::", 1)[1])
     rep.ob("R10.6", "inner-only-via-checked", callers <= {"try_convert_from", "try_convert_from_inner"}, "try_convert_from_inner is reachable only through the depth-checked entry (callers %s)" % sorted(callers), BI)
+    # ------------------------------------------------------------------ R10.7 Not is decided under the lock that walks the keys
+    rep.rule("R10.7", "Not(q) is decided per key under the one read lock that walks the ordered key set (as And is): an exclusion set built by a recursive "
+             "range_keys call under an earlier lock misses keys inserted in between", floor=2)
+    from .c16 import arm_regions
+    RQ = "anda_db_btree::btree::RangeQuery"
+    for name in ("range_query_inner", "range_keys"):
+        f = prog.fn(BI + "::" + name)
+        rep.saw(f, len(f.events))
+        regs = arm_regions(f, RQ)
+        if "Not" not in regs or "And" not in regs:
+            raise CheckerFault("anchor missing: RangeQuery arms of %s (%s)" % (name, sorted(regs)))
+        own = set(regs["Not"]) - set().union(*[set(b) for v, b in regs.items() if v != "Not"])
+        rec = [e for e in f.calls_named(r"BTreeIndex::<PK, FV>::range_keys$") if e.block in own]
+        rep.ob("R10.7", "not-decided-under-the-walking-lock|%s" % name, not rec,
+               "the Not arm of %s first collects the keys matching q with a recursive range_keys call (its own lock scope) and then walks the key set under a "
+               "second read lock: a key inserted in between is walked but not excluded - under a concurrent writer Not(Eq(5)) returns key 5" % name,
+               (rec[0].where() if rec else f.file + ":%d" % f.line))
+
     return rep.finish(EXPLAIN)
